@@ -392,6 +392,13 @@ func (s *vScanner) Scan(ctx context.Context, r *scan.Request) (res scan.Result, 
 		res = &vResult{I: i}
 	case 3:
 		err = fmt.Errorf("scan-%d", i)
+	case 7:
+		// a probe that ran into its OWN time limit while the scan goes on (what the docker and elastic
+		// clients return for a service that stalls: an error wrapping context.DeadlineExceeded)
+		err = fmt.Errorf("scan-%d: %w", i, context.DeadlineExceeded)
+	case 8:
+		// a probe whose own (derived) context was cancelled by a watchdog of the scanner
+		err = fmt.Errorf("scan-%d: %w", i, context.Canceled)
 	case 4:
 	}
 	vs.Visible("scan.end", func() {
